@@ -330,34 +330,60 @@ def run(ctx, rep):
                A.src(qv) if qv is not None else None), ctx.loc(qv) if qv is not None else fr.loc, kind="site")
 
     # ------------------------------------------------------------------ R16.3
+    # Service._connect: model evaluation - through a class, every connection gets its own service instance; through an instance,
+    # that instance; the protocol object is built afresh from (instance, channel, config) and handed to on_connect
+    from .. import miniinterp as MIs
     fc = ctx.func("rpyc.core.service.Service._connect")
-    gc = ctx.cfg(fc, raises="default")
-    rep.analysed(fc, gc)
-    cp = A.params(fc.node)
-    inst = [n for n in gc.live if n.kind == "stmt" and isinstance(n.ast, ast.Assign) and A.src(n.ast) == "%s = %s()" % (cp[0], cp[0])]
-    build = [n for n in gc.live if n.kind == "stmt" and n.ast is not None and A.find_calls(n.ast, "%s._protocol" % cp[0])]
-    dom = Q.dominators(gc)
-    oki = False
-    if inst and build:
-        c = {A.src(t.ast): pol for t, pol in Q.dominating_conditions(gc, inst[0], dom)}
-        oki = c.get("isinstance(%s, type)" % cp[0]) is True
-        # on the class path the instantiation precedes the protocol construction
-        p = Q.find_path_ef(gc.entry, lambda x: x is build[0],
-                           lambda a, b, l: l != "exc" and a is not inst[0] and not (
-                               a.kind == "test" and A.src(a.ast) == "isinstance(%s, type)" % cp[0] and l == "false"))
-        oki = oki and p is None
-    rep.ob("R16.3", "Service._connect: a registered service class is instantiated for each connection", oki,
-           "`if isinstance(self, type): self = self()` precedes the protocol construction" if oki else
-           "connections made through a service class share one instance (or the class itself) as their root: per-client state "
-           "leaks between clients", fc.loc)
-    okb = False
-    for b in build:
-        for c in A.find_calls(b.ast, "%s._protocol" % cp[0]):
-            okb = [A.src(a) for a in c.args] == [cp[0], cp[1], cp[2]]
-    rets = [n for n in gc.live if n.kind == "stmt" and isinstance(n.ast, ast.Return)]
-    okb = okb and len(build) == 1 and not A.in_loop(build[0].ast, fc.node)
-    rep.ob("R16.3", "Service._connect: builds a new protocol object from (service instance, channel, config) on every call", okb,
-           "conn = self._protocol(self, channel, config)" if okb else "the protocol object is not built afresh per call", fc.loc)
+    rep.analysed(fc)
+
+    class _Svc:
+        mi_native = True
+
+        def __init__(self, is_class, log):
+            self.is_class, self.log = is_class, log
+
+        def __call__(self):
+            inst = _Svc(False, self.log)
+            self.log.append(("instantiate", inst))
+            return inst
+
+        def _protocol(self, root, channel, config):
+            conn = ("conn", len(self.log))
+            self.log.append(("protocol", self, root, channel, config, conn))
+            return conn
+
+        def on_connect(self, conn):
+            self.log.append(("on_connect", self, conn))
+    bad_c = []
+    try:
+        for is_class in (True, False):
+            log = []
+            svc = _Svc(is_class, log)
+            cfg_in = {"k": 1}
+            outs = []
+            for _ in range(2):
+                outs.append(MIs.call_function(fc.node, [svc, "CHANNEL", cfg_in], {
+                    "__isinstance__": lambda v, t: t == "type" and isinstance(v, _Svc) and v.is_class}))
+            insts = [x[1] for x in log if x[0] == "instantiate"]
+            protos = [x for x in log if x[0] == "protocol"]
+            hooks = [x for x in log if x[0] == "on_connect"]
+            roots = [x[2] for x in protos]
+            if len(protos) != 2 or len(hooks) != 2 or outs != [x[5] for x in protos] or any(x[3] != "CHANNEL" or x[4] is not cfg_in for x in protos):
+                bad_c.append("%s: %d protocol objects, %d on_connect calls, returns %s" % (
+                    "service class" if is_class else "service instance", len(protos), len(hooks), outs))
+            elif is_class and (len(insts) != 2 or roots != insts or insts[0] is insts[1] or any(h[1] is not r or h[2] != p[5]
+                                                                                                for h, r, p in zip(hooks, roots, protos))):
+                bad_c.append("through a service class the two connections get roots %s (%d instantiations): per-client state is shared "
+                             "between clients" % (["class" if r is svc else "instance" for r in roots], len(insts)))
+            elif not is_class and (insts or any(r is not svc for r in roots)):
+                bad_c.append("through a service instance the root is not that instance")
+    except (AnalysisError, MIs.Raised) as e_:
+        rep.undecided("R16.3", "Service._connect", str(e_))
+    rep.ob("R16.3", "Service._connect: a registered service class is instantiated for each connection", not [b_ for b_ in bad_c if "class" in b_],
+           "two connections through a class give two instances, each the root of its own protocol object" if not bad_c else "; ".join(bad_c),
+           fc.loc, kind="table")
+    rep.ob("R16.3", "Service._connect: builds a new protocol object from (service instance, channel, config) on every call", not bad_c,
+           "protocol(root, channel, config) -> on_connect(conn) -> conn, once per call" if not bad_c else "; ".join(bad_c), fc.loc, kind="table")
     memo = [n for n in A.walk(fc.node) if isinstance(n, ast.Assign) and any(
         isinstance(t, ast.Attribute) and not K.self_attr(t) or (isinstance(t, ast.Attribute) and "cache" in t.attr.lower())
         for t in n.targets)]
